@@ -14,11 +14,13 @@ PLACEMENTS = {
     "mixed": [".Justfile"],
     "both": ["justfile", ".justfile"],
     "dupcase": ["justfile", "Justfile"],
+    "dir": [],          # a DIRECTORY named `justfile`: not a file named justfile, the level has none
 }
+DIRECTORIES = {"dir": ["justfile"]}
 
 
 def level_choices(tier):
-    names = ["none", "justfile", "dot", "upper", "both"] if tier == "quick" else list(PLACEMENTS)
+    names = ["none", "justfile", "dot", "upper", "both", "dir"] if tier == "quick" else list(PLACEMENTS)
     out = []
     for pl in names:
         if PLACEMENTS[pl]:
@@ -55,6 +57,8 @@ def build_tree(d, levels):
             cur = os.path.join(cur, "d%d" % k)
         os.makedirs(cur, exist_ok=True)
         paths.append(cur)
+        for name in DIRECTORIES.get(lv["placement"], []):
+            os.makedirs(os.path.join(cur, name), exist_ok=True)
         for name in PLACEMENTS[lv["placement"]]:
             text = 'set shell := ["%s", "-c"]\n' % C.VSH
             if lv["fallback"]:
